@@ -45,7 +45,18 @@ type Op struct {
 	Rf string `json:"rf,omitempty"` // refresh: what the registry answers: ok | err | size (blob of another size) | content (same size, other bytes)
 }
 
+// IOp: one operation of an interval case (sequential, model-free oracle only)
+type IOp struct {
+	Op string `json:"op"` // res age chk refresh probe done close expl expb
+	N  int    `json:"n,omitempty"`
+	U  int    `json:"u,omitempty"`
+	Ok bool   `json:"ok,omitempty"`
+	Rf string `json:"rf,omitempty"`
+	Sc []bool `json:"sc,omitempty"`
+}
+
 type Case struct {
+	IOps []IOp    `json:"iops,omitempty"` // non-empty: an interval case
 	Ops  []Op     `json:"ops"`
 	Exec []string `json:"exec,omitempty"` // executed history (with the automatic wake-ups and the closing sequence)
 	Outs []string `json:"outs,omitempty"`
@@ -143,6 +154,8 @@ type machine struct {
 	probeK   map[int]int // per name: next never-read chunk of the blob
 	tainted  map[int]bool
 	stress   bool
+	seq      bool
+	script   []bool
 	calls    uint64
 	mu       sync.Mutex
 	openMeta int
@@ -210,6 +223,15 @@ func (m *machine) external(kind int) bool {
 	if m.stress {
 		return atomic.AddUint64(&m.calls, 1)%7 != 0 // truly concurrent mode: no suspension, every 7th external call fails
 	}
+	if m.seq { // sequential mode (interval cases): no suspension, outcomes from a script (missing entries = success)
+		m.calls++
+		if len(m.script) == 0 {
+			return true
+		}
+		ok := m.script[0]
+		m.script = m.script[1:]
+		return ok
+	}
 	v, ok := m.byGoid.Load(goid())
 	if !ok {
 		return m.syncOK
@@ -235,7 +257,10 @@ func descOf() ocispec.Descriptor {
 	return ocispec.Descriptor{Digest: blobDigest, Size: int64(len(blobData))}
 }
 
-func newMachine() *machine {
+func newMachine() *machine { return newMachineCfg(false) }
+
+// interval = true: connectivity checks are valid for an hour (ValidInterval) instead of being repeated on every Check
+func newMachineCfg(interval bool) *machine {
 	base := ""
 	if st, e := os.Stat("/dev/shm"); e == nil && st.IsDir() {
 		base = "/dev/shm" // directory caches fsync; keep the per-case root on tmpfs when there is one
@@ -259,7 +284,8 @@ func newMachine() *machine {
 		return &trackedReader{Reader: r, m: m}, nil
 	}
 	cfg := config.Config{}
-	cfg.BlobConfig.CheckAlways = true
+	cfg.BlobConfig.CheckAlways = !interval
+	cfg.BlobConfig.ValidInterval = 3600
 	cfg.BlobConfig.ChunkSize = probeChunk
 	cfg.DirectoryCacheConfig.SyncAdd = true
 	cfg.ResolveResultEntryTTLSec = 3600
@@ -713,6 +739,202 @@ func stress(seed uint64) []string {
 	return problems
 }
 
+// intervalCase: the resolver with a non-zero ValidInterval and time passing (the verif hook moves a blob's lastCheck into
+// the past). Sequential: every call completes; outcomes of external calls from a script. The Coq model has no notion of the
+// interval (it models CheckAlways), so only the model-free oracle applies: a Check probes exactly when the last successful
+// check / fetch / refresh is older than the interval, fails exactly when that probe fails, a failed probe does not count as a
+// check, Resolve does not hand out a cached layer whose due check failed; held layers stay usable; all is reclaimed at the end.
+func intervalCase(ops []IOp) []string {
+	m := newMachineCfg(true)
+	defer m.cleanup()
+	m.seq = true
+	type ih struct {
+		l        layer.Layer
+		b        remote.Blob
+		obj      any
+		name     int
+		released bool
+	}
+	var hs []*ih
+	stale := map[remote.Blob]bool{}
+	cached := map[int]any{} // name -> instance believed to be in the layer cache
+	var problems []string
+	bad := func(f string, a ...any) { problems = append(problems, "interval mode: "+fmt.Sprintf(f, a...)) }
+	get := func(u int) *ih {
+		if u < 0 || u >= len(hs) {
+			return nil
+		}
+		return hs[u]
+	}
+	for _, o := range ops {
+		switch o.Op {
+		case "res":
+			if o.N < 0 || o.N >= nnames {
+				continue
+			}
+			m.script = append([]bool{}, o.Sc...)
+			inst := cached[o.N]
+			var instBlob remote.Blob
+			for _, h := range hs {
+				if h.obj == inst && inst != nil {
+					instBlob = h.b
+				}
+			}
+			l, err := m.res.Resolve(context.Background(), failingHosts, refOf(o.N), descOf())
+			m.script = nil
+			if err != nil {
+				continue
+			}
+			l.SkipVerify()
+			h := &ih{l: l, b: layer.VerifBlobC12(l), obj: layer.VerifLayerObjectC12(l), name: o.N}
+			if inst != nil && h.obj == inst && instBlob != nil && stale[instBlob] && len(o.Sc) > 0 && !o.Sc[0] {
+				bad("Resolve of name %d handed out the cached layer although its connectivity check was due and failed", o.N)
+			}
+			stale[h.b] = false // a layer is only handed out over a blob that is new or whose due check was made and passed
+			if data, err := layer.VerifReadFileC12(l, "a.txt", len(fileData)+8); err != nil || !bytes.Equal(data, fileData) {
+				bad("the layer returned by Resolve does not serve its file: %v", err)
+			}
+			cached[o.N] = h.obj
+			hs = append(hs, h)
+		case "age":
+			if h := get(o.U); h != nil && !h.released {
+				remote.VerifAgeLastCheckC12(h.b, 2*time.Hour)
+				stale[h.b] = true
+			}
+		case "chk":
+			h := get(o.U)
+			if h == nil || h.released {
+				continue
+			}
+			m.script = []bool{o.Ok}
+			c0 := m.calls
+			err := h.l.Check()
+			probed := m.calls > c0
+			m.script = nil
+			if probed != stale[h.b] {
+				bad("Check of a held layer: probed=%v but the last successful check is %s", probed, map[bool]string{true: "older than the interval", false: "inside the interval"}[stale[h.b]])
+			}
+			if (err != nil) != (stale[h.b] && !o.Ok) {
+				bad("Check of a held layer returned %v (check due=%v, connection ok=%v)", err, stale[h.b], o.Ok)
+			}
+			if stale[h.b] && o.Ok {
+				stale[h.b] = false
+			}
+		case "refresh":
+			h := get(o.U)
+			if h == nil || h.released {
+				continue
+			}
+			m.script = []bool{o.Rf != "err"}
+			m.syncSrc = map[string]int{"ok": 0, "err": 0, "size": 1}[o.Rf]
+			err := h.l.Refresh(context.Background(), failingHosts, refOf(h.name), descOf())
+			m.script, m.syncSrc = nil, 0
+			if (err != nil) != (o.Rf != "ok") {
+				bad("Refresh (%s) of a held layer returned %v", o.Rf, err)
+			}
+			if err == nil {
+				stale[h.b] = false
+			}
+		case "probe":
+			h := get(o.U)
+			if h == nil || h.released {
+				continue
+			}
+			off := int64((probeFirst + m.probeK[h.name]) * probeChunk)
+			if off+4 > int64(len(blobData))-16*1024 {
+				continue
+			}
+			m.probeK[h.name]++
+			p := make([]byte, 4)
+			if _, err := h.l.ReadAt(p, off); err != nil || !bytes.Equal(p, blobData[off:off+4]) {
+				bad("held layer: a read that has to go to the registry failed (err=%v)", err)
+			} else {
+				stale[h.b] = false // a successful fetch counts as a check
+			}
+		case "done", "close":
+			h := get(o.U)
+			if h == nil {
+				continue
+			}
+			h.released = true
+			if o.Op == "done" {
+				h.l.Done()
+			} else {
+				h.l.Close()
+				if cached[h.name] == h.obj {
+					delete(cached, h.name)
+				}
+			}
+		case "expl", "expb":
+			if o.N < 0 || o.N >= nnames {
+				continue
+			}
+			key := layer.VerifCacheKeyC12(refOf(o.N), descOf())
+			if o.Op == "expl" {
+				m.res.VerifExpireLayerC12(key)
+				delete(cached, o.N)
+			} else {
+				m.res.VerifExpireBlobC12(key)
+			}
+		}
+	}
+	for _, h := range hs {
+		if !h.released {
+			if _, err := h.l.RootNode(0); err != nil {
+				bad("held layer is closed: %v", err)
+			}
+			h.l.Done()
+		}
+	}
+	for n := 0; n < nnames; n++ {
+		key := layer.VerifCacheKeyC12(refOf(n), descOf())
+		m.res.VerifExpireLayerC12(key)
+		m.res.VerifExpireBlobC12(key)
+	}
+	if v := m.view(); v != [3]int{0, 0, 0} {
+		bad("after all holders released and everything expired: %d fscache dirs, %d httpcache dirs, %d open metadata readers remain", v[0], v[1], v[2])
+	}
+	return problems
+}
+
+func genInterval(r *hx.Rng) []IOp {
+	var ops []IOp
+	nh := 0
+	n := r.Range(8, 26)
+	for i := 0; i < n; i++ {
+		u := 0
+		if nh > 0 {
+			u = r.Intn(nh)
+		}
+		switch r.Pick(20, 16, 22, 10, 6, 6, 4, 6, 3) {
+		case 0:
+			var sc []bool
+			if r.Chance(1, 2) {
+				sc = []bool{r.Chance(1, 2), r.Chance(4, 5), r.Chance(4, 5)}
+			}
+			ops = append(ops, IOp{Op: "res", N: r.Pick(5, 3, 2), Sc: sc})
+			nh++ // (a failed Resolve adds no handle; indices beyond are skipped)
+		case 1:
+			ops = append(ops, IOp{Op: "age", U: u})
+		case 2:
+			ops = append(ops, IOp{Op: "chk", U: u, Ok: r.Chance(1, 2)})
+		case 3:
+			ops = append(ops, IOp{Op: "refresh", U: u, Rf: []string{"ok", "err", "size"}[r.Pick(2, 4, 3)]})
+		case 4:
+			ops = append(ops, IOp{Op: "probe", U: u})
+		case 5:
+			ops = append(ops, IOp{Op: "done", U: u})
+		case 6:
+			ops = append(ops, IOp{Op: "close", U: u})
+		case 7:
+			ops = append(ops, IOp{Op: "expl", N: r.Pick(5, 3, 2)})
+		case 8:
+			ops = append(ops, IOp{Op: "expb", N: r.Pick(5, 3, 2)})
+		}
+	}
+	return ops
+}
+
 func run(c Case) *machine {
 	m := newMachine()
 	defer m.cleanup()
@@ -810,9 +1032,25 @@ func main() {
 			ctx.Violation(id, p, nil)
 		}
 	}
+	emitInterval := func(ops []IOp) {
+		problems := intervalCase(ops)
+		ctx.Count("interval")
+		for _, o := range ops {
+			ctx.Count("iop." + o.Op)
+		}
+		id := ctx.Case("([], [])", Case{IOps: ops}, fmt.Sprintf("interval-%v", ops), false)
+		for _, p := range problems {
+			ctx.Violation(id, p, nil)
+		}
+	}
 	if ctx.Replay != "" {
 		var c Case
 		ctx.LoadReplay(&c)
+		if len(c.IOps) > 0 {
+			emitInterval(c.IOps)
+			ctx.Finish()
+			return
+		}
 		emit(c)
 		ctx.Finish()
 		return
@@ -841,7 +1079,17 @@ func main() {
 	for _, c := range corpus {
 		emit(c)
 	}
+	// connectivity checks with a validity interval and time passing (sequential, oracle only): fixed cases, then random ones
+	emitInterval([]IOp{{Op: "res", N: 0}, {Op: "chk", U: 0, Ok: false}, {Op: "age", U: 0}, {Op: "chk", U: 0, Ok: false}, {Op: "refresh", U: 0, Rf: "err"},
+		{Op: "chk", U: 0, Ok: false}, {Op: "chk", U: 0, Ok: false}, {Op: "res", N: 0, Sc: []bool{false, true, true}}, {Op: "chk", U: 0, Ok: true}, {Op: "chk", U: 0, Ok: false}})
+	emitInterval([]IOp{{Op: "res", N: 1}, {Op: "res", N: 1}, {Op: "age", U: 1}, {Op: "refresh", U: 0, Rf: "size"}, {Op: "chk", U: 1, Ok: false}, {Op: "chk", U: 0, Ok: false},
+		{Op: "probe", U: 0}, {Op: "chk", U: 1, Ok: false}, {Op: "age", U: 0}, {Op: "refresh", U: 1, Rf: "ok"}, {Op: "chk", U: 0, Ok: false}, {Op: "done", U: 0}, {Op: "age", U: 1}, {Op: "res", N: 1, Sc: []bool{false}}, {Op: "res", N: 1}})
+	ninterval := ctx.N / 8
 	r := hx.NewRng(ctx.Seed)
+	ri := hx.NewRng(ctx.Seed + 7777)
+	for i := 0; i < ninterval; i++ {
+		emitInterval(genInterval(ri.Fork()))
+	}
 	nstress := 0
 	if ctx.Tier == "thorough" {
 		nstress = ctx.N / 25
@@ -849,7 +1097,7 @@ func main() {
 			nstress = 4
 		}
 	}
-	for i := len(corpus); i < ctx.N-nstress; i++ {
+	for i := len(corpus) + 2 + ninterval; i < ctx.N-nstress; i++ {
 		emit(gen(r.Fork()))
 	}
 	for i := 0; i < nstress; i++ {
